@@ -422,6 +422,34 @@ theorem C12enc_header_cell (d : Model.Encode.Doc) (pl : Plan) (R : Trace) (rows 
     rw [List.length_map] at hlen hcells
     exact Or.inr ⟨text, A, fmt, ht, hA, hes, hlen, hcells⟩
 
+/-- **column headers without text of their own.**  A header object whose `text` is `None` is not "not rendered": with
+`as_colheader = True` (the default) it is filled with the displayed column names and rendered with ITS formatting — one
+cell per displayed column — and every `\cf`, `\chcbpat`, `\brdrcf` of that row is printed exactly when the header's own
+attribute holds a non-empty name at `(0, j)`, the name was collected from the document (so it is in the printed table)
+and the index is right.  (`collect_document_colors` must therefore look at headers with and without text alike:
+`C12enc_collected_attrs` ranges over every `some h ∈ d.headers`.) -/
+theorem C12enc_auto_header_cell (d : Model.Encode.Doc) (pl : Plan) (R : Trace) (rows : List ColorRow)
+    (hR : Renders (mkColorCtx d) d pl R) (hrows : tableRows colorTable (usedColors d) = .ok rows)
+    (x : PageCtx × List (Block × List Elem)) (hx : x ∈ R) (y : Block × List Elem) (hy : y ∈ x.2)
+    (i : Nat) (hb : y.1 = Block.colHeader i) (hdr : Header) (hh : (d.headers[i]?).join = some hdr)
+    (hnt : hdr.text = none) (hac : d.body.asColheader = true) :
+    ∃ A fmt, hdr.attrs.mapM Attr.toNested = .ok A ∧
+      y.2 = [rowElem fmt] ∧ fmt.cells.length = pl.p.dispCols.length ∧ ∀ j cf, fmt.cells[j]? = some cf →
+        Ref d rows (ilocV A.color 0 j) cf.text.color ∧ Ref d rows (ilocV A.bg 0 j) cf.text.bg ∧
+        Ref d rows (ilocV A.bcLeft 0 j) (sideColor cf.left) ∧ Ref d rows (ilocV A.bcTop 0 j) (sideColor cf.top) ∧
+        Ref d rows (ilocV A.bcBottom 0 j) (sideColor cf.bottom) ∧
+        (if j + 1 = pl.p.dispCols.length then Ref d rows (ilocV A.bcRight 0 j) (sideColor cf.right)
+         else cf.right = none) := by
+  have ht : headerText d pl.p hdr = some pl.p.dispCols := by
+    unfold headerText
+    rw [hnt]
+    simp [hac]
+  rcases C12enc_header_cell d pl R rows hR hrows x hx y hy i hb hdr hh with ⟨h0, _⟩ | ⟨text, A, fmt, h1, hA, hy2, hlen, hcells⟩
+  · rw [ht] at h0; cases h0
+  · rw [ht] at h1
+    cases h1
+    exact ⟨A, fmt, hA, hy2, hlen, hcells⟩
+
 /-- **footnote / source as table**: the single cell's `\cf`, `\chcbpat` and all four `\brdrcf` references are right -/
 theorem C12enc_foot_table_cell (d : Model.Encode.Doc) (rows : List ColorRow)
     (hrows : tableRows colorTable (usedColors d) = .ok rows) (f : Foot) (hf : d.footnote = some f ∨ d.source = some f)
@@ -574,6 +602,32 @@ example :
      | .error _ => false) = true ∧
     useOk colorTable [none, some (255, 0, 0)] { idx := 1, requested := "red" } = true := by
   refine ⟨by decide, by decide +kernel, by decide +kernel, by decide +kernel, by decide +kernel⟩
+
+open Props.C01enc in
+/-- a column header WITHOUT text (filled from the column names) that carries the only colours of the document: a text
+colour, a background and a bottom border colour -/
+def colouredAutoHeader : Header :=
+  { text := none, colRelWidth := none,
+    attrs := { exTbl with color := sc (.str "red"), bg := sc (.str "gold"), bcBottom := sc (.str "blue") } }
+
+open Props.C01enc in
+def exAutoHeader : Model.Encode.Doc := { exDoc [1, 2] with headers := [some colouredAutoHeader] }
+
+open Props.C01enc in
+/-- The colours of a text-less (auto-populated) column header are collected although the object has no text: the table
+blue(26) < gold(142) < red(552) is printed and the header row refers to it — `\cf3`, `\chcbpat2`, `\brdrcf1` — never to
+index 0 (`C12enc_auto_header_cell` on a concrete document; a collector that skips components without text would print
+no colour table and `\cf0 \chcbpat0 \brdrcf0` here). -/
+example :
+    colouredAutoHeader.text = none ∧ exAutoHeader.body.asColheader = true ∧
+    (usedColors exAutoHeader).Perm ["red", "gold", "blue"] ∧
+    (match encodeText exMeasure exAutoHeader with
+     | .ok s => Proofs.EncodeText.hasInfix "\\cf3".toList s && Proofs.EncodeText.hasInfix "\\chcbpat2".toList s &&
+         Proofs.EncodeText.hasInfix "\\brdrcf1".toList s && !Proofs.EncodeText.hasInfix "\\cf0".toList s &&
+         !Proofs.EncodeText.hasInfix "\\chcbpat0".toList s && !Proofs.EncodeText.hasInfix "\\brdrcf0".toList s &&
+         Proofs.EncodeText.hasInfix "{\\colortbl;\n\\red0\\green0\\blue255;\n\\red255\\green215\\blue0;\n\\red255\\green0\\blue0;\n}".toList s
+     | .error _ => false) = true := by
+  refine ⟨rfl, rfl, by decide +kernel, by decide +kernel⟩
 
 /-! ## non-vacuity -/
 
